@@ -430,7 +430,7 @@ fn part() -> HistPart<Mon, impl Fn(&Setup) -> Mon + Sync> {
     let mut sp = SetupProfile::default();
     sp.weird_renew = true;
     sp.codecs = vec![CodecKind::Fix, CodecKind::Var];
-    HistPart { name: "histories", sp, p, cases_quick: 40_000, cases_thorough: 3_000_000, mk: |s: &Setup| Mon::new(s.codec) }
+    HistPart { name: "histories", sp, p, cases_quick: 120_000, cases_thorough: 3_000_000, mk: |s: &Setup| Mon::new(s.codec) }
 }
 
 pub fn run(ctx: &Ctx, report: &mut Report) -> EvidenceMeta {
